@@ -28,7 +28,7 @@ func init() {
 	Register(&Prop{
 		ID:    "C10",
 		Title: "File-tree entries change only by their owner or, for posts, the folder's editors",
-		Cases: func(t string) int { return tierN(t, 240, 3000) },
+		Cases: func(t string) int { return tierN(t, 240, 24000) },
 		Run:   runC10,
 		Rule: "case = one history of 30..60 file-tree messages (all 11 handlers) signed by owner / editor / viewer / stranger over trees 3+ levels deep, ~40% of the messages with one crafted free-text field " +
 			"(separators, quotes, braces, unicode, NUL, long, hex strings equal to another entry's address / owner key / account hash / access id, boundary shifts of Address||Account and Parent||Child, store-key layout shifts, " +
